@@ -373,7 +373,11 @@ def _case(mn, mx):
                               "and constraints[i].right is variables[i + %d] and not constraints[i].equality and not constraints[i].active "
                               "and not constraints[i].unsatisfiable and lastpos(constraints[i]) == i "
                               "and constraints[i].gap == gap_between(nodes[i], nodes[i + 1], options['lineSpacing'], options['nodeSpacing'])))" % (n, off, off + 1)),
-        ] + ([("R6_left_wall_kept", "variables[0] is leftWall and leftWall.node is None and leftWall.scale == 1 and constraints[%s - 1].left is leftWall "
+        ] + ([("R6a_left_wall_first", "variables[0] is leftWall and leftWall is not rightWall"),
+              ("R6b_left_wall_fields", "leftWall.node is None and leftWall.scale == 1"),
+              ("R6c_left_wall_constraint_ends", "constraints[%s - 1].left is leftWall and constraints[%s - 1].right is variables[1]" % (n, n)),
+              ("R6d_left_wall_constraint_state", "not constraints[%s - 1].active and not constraints[%s - 1].equality and lastpos(constraints[%s - 1]) == %s - 1" % ((n,) * 4)),
+              ("R6_left_wall_kept", "variables[0] is leftWall and leftWall.node is None and leftWall.scale == 1 and constraints[%s - 1].left is leftWall "
                                    "and constraints[%s - 1].right is variables[1] and not constraints[%s - 1].active and not constraints[%s - 1].equality "
                                    "and lastpos(constraints[%s - 1]) == %s - 1 and leftWall is not rightWall" % ((n,) * 6))] if off else [])
     return ens, stones, asserts, cuts
